@@ -215,17 +215,39 @@ func main() {
 					}
 				}
 			}
-			ast.Inspect(fd.Body, func(n ast.Node) bool {
-				switch b := n.(type) {
-				case *ast.BlockStmt:
-					b.List = r.stmts(b.List)
-				case *ast.CaseClause:
-					b.Body = r.stmts(b.Body)
-				case *ast.CommClause:
-					b.Body = r.stmts(b.Body)
-				}
-				return true
-			})
+			// lock sites inside a function literal are named "<func>.func" (the goroutines and
+			// deferred closures a function starts are different preemption targets than its body)
+			base := fd.Name.Name
+			var walk func(n ast.Node, depth int)
+			walk = func(n ast.Node, depth int) {
+				ast.Inspect(n, func(m ast.Node) bool {
+					if m == nil || m == n {
+						return true
+					}
+					if fl, ok := m.(*ast.FuncLit); ok {
+						r.fn = base + ".func"
+						fl.Body.List = r.stmts(fl.Body.List)
+						walk(fl.Body, depth+1)
+						return false
+					}
+					r.fn = base
+					if depth > 0 {
+						r.fn = base + ".func"
+					}
+					switch b := m.(type) {
+					case *ast.BlockStmt:
+						b.List = r.stmts(b.List)
+					case *ast.CaseClause:
+						b.Body = r.stmts(b.Body)
+					case *ast.CommClause:
+						b.Body = r.stmts(b.Body)
+					}
+					return true
+				})
+			}
+			r.fn = base
+			fd.Body.List = r.stmts(fd.Body.List)
+			walk(fd.Body, 0)
 		}
 		// any lock call left that was not handled?
 		bad := false
